@@ -141,22 +141,14 @@ impl<'a> TipModel<'a> {
         Some(vh)
     }
 
-    /// The stored tip is on the fork branch more than last-N blocks beyond the fork point (it was
-    /// adopted legitimately: it was heavier): the way back to the main chain is the documented
-    /// long-fork abort.
+    /// The stored tip is more than last-N blocks beyond the fork point: a switch to the other
+    /// branch is the documented long-fork abort.
     fn deep_on_fork(&self, sim: &Sim) -> bool {
-        let (_, tip_now, _, _) = Self::stored(sim);
-        match self.locate(&tip_now) {
-            Some((0, _)) => false,
-            Some((_, n)) => n > FORK_AT + self.cfg.last_n,
-            None => self
-                .track
-                .borrow()
-                .forged
-                .get(&tip_now)
-                .map(|f| f.parent_chain == 1 && f.parent_number + 1 > FORK_AT + self.cfg.last_n)
-                .unwrap_or(false),
-        }
+        // the two branches part after block FORK_AT: once the stored tip (on either branch) is more
+        // than last-N blocks beyond that, a switch to the other branch is a fork deeper than last-N
+        let (_, tip_now, number, _) = Self::stored(sim);
+        let _ = tip_now;
+        number > FORK_AT + self.cfg.last_n
     }
 
     fn stored(sim: &Sim) -> (U256, packed::Byte32, u64, Vec<(u64, packed::Byte32)>) {
@@ -546,31 +538,53 @@ pub(crate) fn run(opts: &Opts, report: &mut Report) {
 
 #[allow(dead_code)]
 pub(crate) fn debug_case() {
+    // C12_START=0|1|2, C12_PEERS=2|3, C12_EVENTS="Deliver(2);Grow(1,5);Forged(2,0);Restart;Tick;Switch(2);Dup(1)"
     let env = Env::dummy();
     let mut main = Chain::new(std::sync::Arc::clone(&env.consensus), scen::wavy_plan(6));
     scen::extend_chain(&mut main, &env.scripts, 60, &[]);
     let mut fork = main.fork(FORK_AT, 777);
     scen::extend_chain(&mut fork, &env.scripts, 60, &[]);
+    let getn = |k: &str, d: u64| -> u64 { std::env::var(k).ok().and_then(|x| x.parse().ok()).unwrap_or(d) };
     let m = TipModel {
         env: &env,
         main,
         fork,
         cfg: ClientCfg { last_n: 3, max_outbound: 2, cp_interval: 4, ..Default::default() },
-        n_peers: 2,
-        start: 2,
+        n_peers: getn("C12_PEERS", 2) as usize,
+        start: getn("C12_START", 0) as u8,
         base_height: 14,
         track: RefCell::new(Track::default()),
     };
+    let evs: Vec<Ev> = std::env::var("C12_EVENTS")
+        .unwrap_or_default()
+        .split(';')
+        .filter(|x| !x.trim().is_empty())
+        .map(|x| {
+            let x = x.trim();
+            let name = x.split('(').next().unwrap();
+            let args: Vec<u64> = x.split('(').nth(1).unwrap_or("").trim_end_matches(')').split(',').filter_map(|a| a.trim().parse().ok()).collect();
+            match name {
+                "Deliver" => Ev::Deliver(args[0] as usize),
+                "Grow" => Ev::Grow(args[0] as usize, args[1]),
+                "Switch" => Ev::Switch(args[0] as usize),
+                "Forged" => Ev::Forged(args[0] as usize, args[1] as u8),
+                "Dup" => Ev::Dup(args[0] as usize),
+                "Tick" => Ev::Tick,
+                "Restart" => Ev::Restart,
+                other => panic!("unknown event {}", other),
+            }
+        })
+        .collect();
     let mut sim = m.init(None);
     sim.record_trace = true;
-    println!("{}", sim.c().peers.verif_dump(client::now()));
-    println!("stored {:?} bans {:?}", TipModel::stored(&sim).2, sim.bans());
-    for ev in [Ev::Grow(2, 1), Ev::Deliver(2)] {
-        m.apply(&mut sim, &ev);
-        println!("after {:?}: {:?} stored #{}", ev, m.check(&sim, &[]), TipModel::stored(&sim).2);
+    for (i, ev) in evs.iter().enumerate() {
+        m.apply(&mut sim, ev);
+        println!("after {:?}: {:?} stored #{}", ev, m.check(&sim, &evs[..=i]), TipModel::stored(&sim).2);
     }
+    println!("continuation: {:?}", m.on_new_state(&mut sim, &evs));
     for l in &sim.trace {
         println!("{}", l);
     }
     println!("{}", sim.c().peers.verif_dump(client::now()));
+    println!("bans {:?}", sim.bans());
 }
